@@ -467,7 +467,7 @@ theorem decCodec_printer : decCodec.Printer decQ :=
       numeral of at most 15 digits survives decimal → double → decimal; `p = 16` (what gama-g3 uses for the dump) because
       either the numeral `D x` is nearer to `x` than half a unit in the last place of `x` (then `N (D x) = x`), or the doubles
       are locally denser than the 16-digit numerals and the double nearest to `D x` is within half a numeral step of
-      `D x`.  With 16 digits `N ∘ D` is a projection that is *not* the identity (≤ 1 ulp: relative 2.2e-16).
+      `D x`.  With 16 digits `N ∘ D` is a projection that is *not* the identity (relative change up to 5·10⁻¹⁶, half a unit of the 16th digit; measured 5.1e-16).
     The `adj` dump stream of the check tests `rd (fmt x)` bit for bit against `x` on the real tool for both precisions
     (counts `dump16_*` in the evidence). -/
 structure DecimalStream (c : Codec K S) {Dec : Type} (D : K → Dec) (N : Dec → K) (shw : Dec → S) : Prop where
